@@ -5,6 +5,25 @@ HERE = os.path.dirname(os.path.dirname(os.path.abspath(__file__)))
 props = [json.loads(l) for l in open(os.path.join(HERE, "properties.jsonl"))]
 
 CLAIMED = {
+    "C01": ("runtime monitor: generated enum corpus x hostile input classes, lock-step reference parser (Rust twin + python re-check)",
+            "Hundreds to thousands of generated EnumString enums over the whole attribute space, each driven with 1-3k inputs "
+            "(declared spellings, all/sampled case flips, one-edit neighbours, padded, disabled/default names, re-cased "
+            "identifiers, look-alikes, random, 4 KiB); every from_str and try_from result (variant, payload, error) is compared "
+            "with an independent reference parser; sampled events are re-checked by a second python implementation.",
+            "Not exhaustive over programs/strings; trusts std derives and the generator's rendering; spelling non-overlap is checked by the generator.",
+            "DESIGN.md §7 C01"),
+    "C12": ("runtime monitor: exhaustive 2^k case-flip and Unicode look-alike inputs against a hand-written ASCII-fold reference parser",
+            "Systematic grid {enum flag} x {variant flag absent/bare/=true/=false} x spelling classes (ASCII, non-ASCII, Kelvin/long-s/"
+            "dotless-i/sharp-s) plus seeded random enums; all 2^k flips (k<=10 quick, 12 thorough) of every spelling, look-alike "
+            "substitutions and Unicode case mappings are parsed and compared with the reference parser.",
+            "Flip sets are exhaustive only up to k letters per spelling; look-alike table is finite.",
+            "DESIGN.md §7 C12"),
+    "C18": ("runtime monitor: logging user error function + reference parser; error value and call log checked per input",
+            "Random enums without default variant with custom error types (plain, module path, generic, boxed dyn Error) and a "
+            "control group; for every input the Err value must equal f(s) for the exact input and the function's call log must "
+            "be [s] on rejection and empty on acceptance; includes use_phf enums; associated error types checked by annotation.",
+            "Call log is thread-local inside the corpus's own function; not exhaustive over inputs.",
+            "DESIGN.md §7 C18"),
     # id: (technique, level text, level note, design_ref)
     "C04": ("runtime monitor: generated enum corpus, list oracle vs reference model",
             "Every generated enum (all disabled masks up to n=6/7, all variant kinds, type/const generics, seeded random "
